@@ -98,12 +98,12 @@ class Gen:
     def __init__(self, prefix="f"):
         self.funcs, self.meta, self.n, self.prefix = [], {}, 0, prefix
 
-    def add(self, key, sig, body, locs="i64:r", dom="any", fixed_b=None, res="i64", shape=""):
+    def add(self, key, sig, body, locs="i64:r", dom="any", fixed_b=None, res="i64", shape="", argtext=None):
         self.n += 1
         fname = f"{self.prefix}{self.n}"
         body = body.replace("@", f"L{self.prefix}{self.n}_")
         loc = f"  local {locs}\n" if locs else ""
-        self.funcs.append(f"{fname}: func {res}, {self.ARGS[sig]}\n{loc}{body}\n  endfunc\n")
+        self.funcs.append(f"{fname}: func {res}, {argtext or self.ARGS[sig]}\n{loc}{body}\n  endfunc\n")
         self.meta[fname] = {"key": key, "sig": sig, "dom": dom, "fixed_b": fixed_b, "shape": shape, "idx": self.n - 1}
         return fname
 
@@ -119,6 +119,60 @@ def simm(im):
 INT_OPS = sorted(b + sfx for b in BASES for sfx in ("", "S"))
 BR_OPS = [("UB" + c[1:] if c.startswith("U") else "B" + c) + sfx for c in sorted(CMPS) for sfx in ("", "S")]
 EXT_OPS = ["EXT8", "EXT16", "EXT32", "UEXT8", "UEXT16", "UEXT32"]
+
+
+PTYPES = {"i8": (8, True), "u8": (8, False), "i16": (16, True), "u16": (16, False), "i32": (32, True), "u32": (32, False),
+          "i64": (64, True), "u64": (64, False), "p": (64, False)}
+
+
+def ptype_values(t):
+    """boundary values a caller may pass for a parameter of type t (as the 64-bit register content: the value
+    sign- resp. zero-extended, which is what both MIR_interp and the C calling convention deliver)"""
+    w, sg = PTYPES[t]
+    if w == 64:
+        return [0, 1, (1 << 63) - 1, 1 << 63, M64, (1 << 63) + 12345, 0xFFFFFFFF80000000, 1 << 32, 5]
+    if sg:
+        return [x & M64 for x in (-(1 << (w - 1)), -1, 0, 1, (1 << (w - 1)) - 1, 5, -7)]
+    return [0, 1, (1 << (w - 1)) - 1, 1 << (w - 1), (1 << w) - 1, 5]
+
+
+def build_param_funcs(g):
+    """functions whose PARAMETERS of every integer type feed every instruction directly (no intermediate mov):
+    the prologue copy `int64_t a = _a;` and the parameter declarations are part of what the templates rely on.
+    -> plan lines (explicit calls with in-range values)"""
+    plan = []
+    for t in PTYPES:
+        vals = ptype_values(t)
+        a1, a2 = f"{t}:a", f"{t}:a, {t}:b"
+
+        def un(key, sig, body, res="i64", locs="i64:r"):
+            fn = g.add(("ptype", t) + key, sig, body, locs=locs, res=res, shape="param " + t, argtext=a1)
+            for v in vals:
+                plan.append(f"call {fn} {sig} {v:x}")
+        un(("ret",), "i_i", "  ret a", locs="")
+        for op in ("mov", "ext8", "ext16", "ext32", "uext8", "uext16", "uext32", "neg"):
+            un((op,), "i_i", f"  {op} r, a\n  ret r")
+        un(("negs",), "i_i", "  negs r, a\n  ext32 r, r\n  ret r")
+        for op, sig, ty in (("i2f", "i_f", "f"), ("i2d", "i_d", "d"), ("i2ld", "i_l", "ld"), ("ui2f", "i_f", "f"),
+                            ("ui2d", "i_d", "d"), ("ui2ld", "i_l", "ld")):
+            un((op,), sig, f"  {op} r, a\n  ret r", res=ty, locs=f"{ty}:r")
+        for op in ("bt", "bf", "bts", "bfs"):
+            un((op,), "i_i", f"  {op} @t, a\n  mov r, 0\n  ret r\n@t:\n  mov r, 1\n  ret r")
+        un(("store",), "i_i", "  alloca q, 16\n  mov i64:(q), a\n  mov r, i64:(q)\n  ret r", locs="i64:r, i64:q")
+        un(("addr",), "i_i", "  alloca q, 16\n  mov i64:(q), 77\n  mov i64:8(q), 78\n  and r, a, 1\n  mov r, i64:(q, r, 8)\n  ret r", locs="i64:r, i64:q")
+        for name in INT_OPS + BR_OPS:
+            op = name.lower()
+            if name in BR_OPS:
+                body = f"  {op} @t, a, b\n  mov r, 0\n  ret r\n@t:\n  mov r, 1\n  ret r"
+            else:
+                base, short = base_of(name)
+                body = f"  {op} r, a, b\n" + ("  ext32 r, r\n" if short and base not in CMPS else "") + "  ret r"
+            fn = g.add(("ptype", t, name), "ii_i", body, shape="param " + t, argtext=a2)
+            for x in vals:
+                for y in vals:
+                    if name in BR_OPS or dom_ok(name, x, y):
+                        plan.append(f"call {fn} ii_i {x:x} {y:x}")
+    return plan
 
 
 def hard_fp_constants(cls, rng, n):
@@ -414,6 +468,7 @@ def stage_templates(ck, st, rows, quick, viol):
             "fvals " + " ".join(f"{x:x}" for x in fv), "lvals " + " ".join(lv)]
     for fn, m in g.meta.items():
         plan.append(f"grid {fn} {m['sig']} {m['dom'] if m['fixed_b'] is None else 'any'}")
+    plan += build_param_funcs(g)
     text = g.text()
     rc, lines, err = st.engine(text, "\n".join(plan) + "\n", "grid", timeout=600)
     errs = [l for l in lines if l.startswith("E ")]
@@ -905,14 +960,29 @@ def gen_data_module(rng, name, allow_anon, scalar_ok=False, allow_refs=True):
                     body += ["  mov t, u8:(q)", "  mul acc, acc, 31", "  xor acc, acc, t"]
                 off += 8
             refsecs.append((head, off))
-    # write into the first section, read back (data must be writable memory)
-    body.append(f"  mov p, {sections[0][0]}")
-    body.append("  mov u8:(p), k")
-    body.append("  mov t, u8:(p)")
-    body.append("  add acc, acc, t")
+    # write through the pointer into every data section and read back (data must be writable memory)
+    for head, tot in sections:
+        body += [f"  mov p, {head}", "  mov u8:(p), k", "  mov t, u8:(p)", "  add acc, acc, t",
+                 f"  mov u8:{tot - 1}(p), acc", f"  mov t, u8:{tot - 1}(p)", "  mul acc, acc, 31", "  xor acc, acc, t"]
     body.append("  ret acc")
     fname = f"{name}_f"
-    text = f"{name}: module\nexport {fname}\n" + "\n".join(lines) + f"\n{fname}: func i64, i64:k\n  local i64:acc, i64:p, i64:q, i64:t\n" + "\n".join(body) + "\n  endfunc\n  endmodule\n"
+    func = f"{fname}: func i64, i64:k\n  local i64:acc, i64:p, i64:q, i64:t\n" + "\n".join(body) + "\n  endfunc"
+    heads = [h for h, _ in sections + refsecs]
+    # where the items are declared relative to the function that takes their addresses: the reference operand
+    # then goes through a forward item, an export item, or the definition itself
+    layout = [0, 1, 1, 3, 4, 4, 2][rng.below(7)]
+    data = "\n".join(lines)
+    if layout == 0:
+        parts = [data, func]
+    elif layout == 1:
+        parts = ["\n".join(f"forward {h}" for h in heads), func, data]
+    elif layout == 2:
+        parts = ["\n".join(f"export {h}" for h in heads), func, data]
+    elif layout == 3:
+        parts = [data, "\n".join(f"export {h}" for h in heads), func]
+    else:
+        parts = ["\n".join(f"forward {h}" for h in heads), func, data, "\n".join(f"export {h}" for h in heads[::2])]
+    text = f"{name}: module\nexport {fname}\n" + "\n".join(parts) + "\n  endmodule\n"
     sections = sections + refsecs
     return text, fname, items + ["No"] * 0, sections
 
@@ -934,19 +1004,24 @@ def stage_sections(ck, st, nmods, loop_fixed, viol):
         rc, out, err = c20_engine.emit(st.run, mir, cfile, maxbytes=4 * 1024 * 1024, secs=5)
         enc = [l.split()[2] for l in out.split("\n") if l.startswith("M ") and len(l.split()) > 2]
         ctext = open(cfile, errors="replace").read()[:200000] if os.path.exists(cfile) else ""
+        ccerr = ""
+        if rc == 0:
+            q = subprocess.run(["gcc", "-fsyntax-only", "-w", cfile], stdout=subprocess.PIPE, stderr=subprocess.STDOUT, text=True)
+            if q.returncode != 0:
+                ccerr = "\n".join([l for l in q.stdout.split("\n") if ": error: " in l][:40]) or q.stdout[-300:]
         try:
             os.remove(cfile)
         except OSError:
             pass
-        return rc, enc[0] if enc else "", ctext
+        return rc, enc[0] if enc else "", ctext, ccerr
     with ThreadPoolExecutor(max_workers=8) as ex:
         emitted = list(ex.map(one, range(nmods)))
     # model verdicts
-    req = [f"sect {1 if loop_fixed else 0} 200 {enc}" for rc, enc, _ in emitted]
+    req = [f"sect {1 if loop_fixed else 0} 200 {enc}" for rc, enc, _, _ in emitted]
     rc, out, err = ck.drv("mirdrv_c20", [], "\n".join(req) + "\n")
     model = out.split("\n")
     runnable = []
-    for k, ((erc, enc, ctext), (text, fname, items, sections)) in enumerate(zip(emitted, mods)):
+    for k, ((erc, enc, ctext, ccerr), (text, fname, items, sections)) in enumerate(zip(emitted, mods)):
         mv = model[k].split() if k < len(model) else []
         model_div = "DIVERGE" in mv
         real_div = erc in (41, 42, -99)
@@ -986,6 +1061,14 @@ def stage_sections(ck, st, nmods, loop_fixed, viol):
                                    "first_diff": {"items": enc, "model": exp_members, "emitted": got_members, "mir": text}})
             continue
         info["member_lists_equal"] += 1
+        if ccerr:
+            kinds = cc_kinds(ccerr)
+            info["rejected_by_gcc"] += 1
+            for sg in (sorted(kinds) if kinds and None not in kinds else [None]):
+                viol.append(("section:rejected", {"stage": "sections", "mir": text, "items": enc, "signature": sg, "cc_error": ccerr[:600],
+                                                 "case": {"kind": "emit", "mir": text, "compile": True},
+                                                 "what": f"translation of a data-section module is rejected by gcc: {ccerr[:300]}"}))
+            continue
         if len(samples) < 2:
             samples.append({"items": enc, "model": model[k], "members": got_members})
         runnable.append(k)
